@@ -100,12 +100,19 @@ class FInt:
 
 
 def fint_builtin_wrap(interp):
-    """float()/int() of an interval: float is the identity."""
+    """float()/abs() of an interval: float is the identity."""
     orig = interp.call_builtin
 
     def cb(name, args, kwargs, node=None):
         if name == "float" and args and isinstance(args[0], (FInt, RatFun)):
             return args[0]
+        if name == "abs" and len(args) == 1 and isinstance(args[0], FInt):
+            lo, hi = args[0].lo, args[0].hi
+            if lo >= 0:
+                return args[0]
+            if hi <= 0:
+                return FInt(-hi, -lo, args[0].label)
+            return FInt(0, max(-lo, hi), args[0].label)
         return orig(name, args, kwargs, node)
     interp.call_builtin = cb
 
